@@ -227,6 +227,32 @@ let run_create toks =
         | Some RErrRead -> add " err=read"))
   | _ -> add "BAD-CASE"
 
+(* ---------------------------------------------------------------- statistics and the view pipeline *)
+let stat_of_string = function
+  | "d-fu-li" -> SDFuLi | "d-tajima" -> SDTajima | "f2" -> SF2 | "f3" -> SF3 | "f4" -> SF4 | "fst" -> SFst
+  | "king" -> SKing | "pi" -> SPi | "pi-xy" -> SPiXY | "r0" -> SR0 | "r1" -> SR1 | "s" -> SS | "sum" -> SSum
+  | "theta" -> STheta | _ -> failwith "bad statistic"
+
+let run_stat toks =
+  match toks with
+  | ["stat"; name; sh; data] ->
+    (match calculate (stat_of_string name) (mk_spec sh data) with
+     | Inl (SVal q) -> add ("V " ^ fmt_q q)
+     | Inl (SRatioSqrt (n, d)) -> add ("D " ^ fmt_q n ^ " " ^ fmt_q d)
+     | Inr _ -> add "ERR")
+  (* viewrun MARG PROJ MASK NORM SHAPE DATA ; MARG = - | r:<axes> | k:<axes> ; PROJ = - | <shape> *)
+  | ["viewrun"; marg; proj; mask; norm; sh; data] ->
+    let m = if marg = "-" then None
+      else let l = parse_list (S.sub marg 2 (S.length marg - 2)) in
+        Some (if marg.[0] = 'r' then MRemove l else MKeep l) in
+    let o = { v_marg = m; v_project = (if proj = "-" then None else Some (parse_list proj));
+              v_mask = (mask = "1"); v_normalize = (norm = "1") } in
+    (match view_run o (mk_spec sh data) with
+     | Inl y -> add ("OK " ^ fmt_spec y)
+     | Inr (VMarg _) -> add "ERR marg"
+     | Inr (VProj _) -> add "ERR proj")
+  | _ -> add "BAD-CASE"
+
 let run_case line =
   let toks = split_ws line in
   match toks with
@@ -237,6 +263,7 @@ let run_case line =
      | "fold" | "marg" | "keep" | "project" | "pmf" | "binom" -> run_spectrum toks
      | "npyw" | "npyr" | "textw" | "read" | "fmt" | "parse" | "detect" -> run_bytes toks
      | "classify" | "sites" | "create" -> run_create toks
+     | "stat" | "viewrun" -> run_stat toks
      | _ -> add ("UNKNOWN-OP " ^ op))
 
 let () =
